@@ -534,6 +534,10 @@ impl AddressLookupServices {
             service.publish(&data);
         }
 
+        // Still inside the `services` read lock: the harness only parks here after it has
+        // established that doing so does not block `add` (i.e. on broken locking).
+        #[cfg(feature = "verif-hooks")]
+        crate::verif_hooks::pause("lookup.publish.before_store_last");
         self.last_data
             .write()
             .expect("poisoned")
